@@ -142,7 +142,8 @@ impl Property for C02 {
                 let _ = libio::parse_text(kt, &format!("{text}="));
             }
         }
-        for kt in ALL_KEY_TYPES {
+        // (the second look tries the key types in another order)
+        for kt in crate::refmodel::record::key_types_in_order(crate::case::case_hash(&w.bytes).wrapping_add(7 * pass as u64)) {
             let want = ref_decode_exact(&w.bytes, kt);
             st.evals(2);
             let got = libio::decode(kt, &w.bytes);
